@@ -22,7 +22,8 @@ META = dict(
          "sequence of 1-3 requests over HEAD / GET / POST / DELETE on ONE keep-alive Patron against a real Valet (socket doubles), x Patron "
          "constructed with default method or HEAD x each request answered fixed-length, streamed or by HTTPError x requests issued one by one or "
          "queued at once; every response must match the app's output (no body for HEAD) when delivered AND still after all later responses, and "
-         "leave nothing in the receive buffer.  Environ independence: every sequence of 2-3 requests with different header sets on one connection; the "
+         "leave nothing in the receive buffer.  Payload kinds: every sequence of 2-3 requests over json / form / raw / no payload on one Patron; the server "
+         "must read the same body and CONTENT_* as for the same request on a fresh Patron.  Environ independence: every sequence of 2-3 requests with different header sets on one connection; the "
          "app reports its HTTP_*/CONTENT_* variables, which must equal those of the same request on a fresh connection.  Path reuse: 2-3 GET/POST requests on one Patron where only the first (or the constructor) names "
          "a path containing space / non-ASCII / ',' / '%' and the later ones omit it; the server must see the same path every time.",
     note="Pure product of small sets; arrival schedules only as two-piece fragmentation of the Responder's own output (C29 covers the general case); multipart form bodies, header values outside "
@@ -796,7 +797,21 @@ def env_expected(name):
     return sorted(e.items()), (body or b"").decode("latin-1")
 
 
-def env_run(names, queue):
+PAY_REQS = {      # name -> (method, path, headers, body, data, fargs): one payload kind each, given explicitly
+    "J": ("POST", "/payJ", [], None, {"k": "v", "n": 1}, None),
+    "F": ("PUT", "/payF", [], None, None, [("f", "a b"), ("g", "x&y")]),
+    "R": ("POST", "/payR", [], b"raw-bytes", None, None),
+    "N": ("DELETE", "/payN", [], None, None, None),
+}
+PAY_EXPECTED = {   # name -> (body the server must read, CONTENT_TYPE, CONTENT_LENGTH)
+    "J": ('{"k":"v","n":1}', "application/json; charset=utf-8", "15"),
+    "F": ("f=a+b&g=x%26y", "application/x-www-form-urlencoded; charset=utf-8", "13"),
+    "R": ("raw-bytes", "", "9"),
+    "N": ("", "", "0"),
+}
+
+
+def env_run(names, queue, table=None):
     """One Patron, one keep-alive connection to a real Valet: -> list of reported (environ items, body) or an error string."""
     from mc import net
     from ioflo.aio.http import clienting, serving
@@ -810,11 +825,18 @@ def env_run(names, queue):
     patron = clienting.Patron(hostname="127.0.0.1", port=8091, store=ck)
     patron.open()
 
+    table = table or ENV_REQS
+
     def issue(name):
-        m, path, headers, body = ENV_REQS[name]
+        spec = table[name]
+        m, path, headers, body = spec[:4]
+        data, fargs = (spec[4], spec[5]) if len(spec) > 4 else (None, None)
+        if fargs is not None:
+            fargs = odict(fargs)
         # Patron.request is differential by design: anything omitted is taken from the previous request,
         # so every request names its own headers and query args explicitly
-        patron.request(method=m, path=path, qargs=odict(), headers=odict(headers), body=body)
+        # (its docstring: "Body/Data/fargs must be newly provided" - payloads are never carried over)
+        patron.request(method=m, path=path, qargs=odict(), headers=odict(headers), body=body, data=data, fargs=fargs)
 
     out = []
     if queue == "all-at-once":
@@ -892,7 +914,65 @@ def work_environ(arg):
     return part
 
 
+def work_payloads(arg):
+    """Payload kinds on one reused Patron: json data=, form fargs=, raw body=, none - every sequence of 2-3."""
+    import itertools
+    core.use_repo()
+    from mc import net
+    if not _FSM:
+        _FSM.append(net.FakeSocketModule().install())
+    part = core.Part()
+    names = ["J", "F", "R", "N"]
+    fresh = {}
+
+    def view(report):
+        shown, body = report
+        d = dict(shown)
+        return (body, d.get("CONTENT_TYPE"), d.get("CONTENT_LENGTH"))
+
+    for nme in names:
+        got = env_run([nme], "one-by-one", PAY_REQS)
+        part.evaluations += 1
+        if isinstance(got, str):
+            raise core.BrokenCheck("payload baseline: " + got)
+        fresh[nme] = got[0]
+        if view(got[0]) != PAY_EXPECTED[nme]:
+            part.violation("payload|first-request", nme,
+                           "request %s %s on a fresh Patron: server reads body / CONTENT_TYPE / CONTENT_LENGTH %r, the request was built from %r"
+                           % (PAY_REQS[nme][0], PAY_REQS[nme][1], view(got[0]), PAY_EXPECTED[nme]),
+                           dict(direction="payload", requests=[nme]))
+    for n in (2, 3):
+        for seq in itertools.product(names, repeat=n):
+            for queue in ("one-by-one", "all-at-once"):
+                kinds = {"J": "json", "F": "form", "R": "raw", "N": "none"}
+                case = "%s requests queued %s" % (" ".join("%s:%s" % (PAY_REQS[x][0], kinds[x]) for x in seq), queue)
+                got = env_run(list(seq), queue, PAY_REQS)
+                part.evaluations += 1
+                part.nontrivial("payload " + case)
+                replay = dict(direction="payload", requests=list(seq), queue=queue,
+                              specs={k: dict(method=v[0], path=v[1], body=v[3], data=v[4], fargs=v[5]) for k, v in PAY_REQS.items()},
+                              how="one Patron; Patron.request(method, path, qargs={}, headers={}, body=, data=, fargs=) per request, "
+                                  "payload given explicitly every time; the app reports the body it read and CONTENT_*")
+                if isinstance(got, str):
+                    part.outcome("payload:broken-exchange")
+                    part.violation("payload|no-response", case, "requests %s: %s" % (case, got), replay)
+                    continue
+                ok = True
+                for i, nme in enumerate(seq):
+                    if got[i] != fresh[nme]:
+                        ok = False
+                        part.violation("payload|depends-on-earlier-requests", case,
+                                       "requests %s: request %d (%s %s) reaches the server with body / CONTENT_TYPE / CONTENT_LENGTH %r; the "
+                                       "same request on a fresh Patron gives %r"
+                                       % (case, i + 1, PAY_REQS[nme][0], PAY_REQS[nme][1], view(got[i]), view(fresh[nme])), replay)
+                part.outcome("payload:%d-requests:%s" % (n, "same-as-fresh" if ok else "differs"))
+    part.sample(dict(direction="payload", case=case))
+    return part
+
+
 def work(item):
+    if item[0] == "payload":
+        return work_payloads(item[1])
     if item[0] == "environ":
         return work_environ(item[1])
     if item[0] == "reuse":
@@ -913,7 +993,7 @@ def run():
     items += [("rsp", ("errors",))]
     items += [("req", (m, p)) for m in METHODS for p in PATHS]
     items += [("pair", i) for i in range(len(PAIRKINDS))]
-    items += [("reuse", 0), ("environ", 0)]
+    items += [("reuse", 0), ("environ", 0), ("payload", 0)]
     items += [("seq", (c, q, f)) for c in (None, "HEAD") for q in ("one-by-one", "all-at-once") for f in SEQ_METHODS]
     ck.merge(core.pmap(work, items))
     ck.coverage_extra = dict(request_dimensions=dict(methods=len(METHODS), paths=len(PATHS), qarg_sets=len(qarg_sets()),
@@ -946,6 +1026,10 @@ def run():
         "+ Accept + X-Custom) are sent in every order (2-3 per connection, with repetition) on one keep-alive Patron; the app reports its HTTP_* / "
         "CONTENT_* / request-line variables; each must equal what the same request is shown as the first request of a fresh connection, which in "
         "turn must equal exactly the headers that request carries (+ Host, Accept-Encoding, Content-Length)",
+        "payload kinds: Patron.request's docstring says 'Body/Data/fargs must be newly provided', so a request's payload is exactly what that "
+        "request names; every sequence of 2-3 requests over {json data=, form fargs=, raw body=, no payload} (non-GET methods, payload, qargs "
+        "and headers passed explicitly each time) must reach the server with the same body / CONTENT_TYPE / CONTENT_LENGTH / HTTP_* as the same "
+        "request on a fresh Patron",
         "by HTTP rules a response to HEAD and any 1xx / 204 / 304 response has no body: the body the client must see for those is empty whatever "
         "the application yields, the application's headers (including a Content-Length on a HEAD response) must still arrive, and no byte of "
         "such a response may stay in the client's receive buffer",
